@@ -556,7 +556,7 @@ def cash_replay(ctx: Ctx, recs: List[Dict[str, Any]]) -> None:
 # =============================================================================================
 # C06: Hedger.price / compute_loss against PriceFlow.tla
 # =============================================================================================
-PRICE_CFGS = {"quick": ["q_n2t1", "q_n2t2", "q_n3t1"], "thorough": ["q_n2t1", "q_n2t2", "q_n3t1", "t_n2t1", "t_n3t2"]}
+PRICE_CFGS = {"quick": ["q_n2t1", "q_n2t2", "q_n3t1"], "thorough": ["q_n2t1", "q_n2t2", "q_n3t1", "t_n2t1"]}
 
 
 def price_replay(ctx: Ctx) -> int:
